@@ -123,10 +123,19 @@ def Builder.environ (b : Builder) : BEnviron :=
     serverName := b.serverName
     serverPort := (toString b.serverPort).toList }
 
-/-- `EnvironBuilder.from_environ(environ)` (the Host header is present) -/
+/-- `test._quote_url_syntax` (repair 18c1dce of F15f): `path.replace("%", "%25").replace("?", "%3F")
+.replace("#", "%23")` - the three replacements never touch each other's output, so they are one pass -/
+def quoteUrlSyntax (s : Str) : Str :=
+  s.flatMap fun c =>
+    if c = '%' then ['%', '2', '5'] else if c = '?' then ['%', '3', 'F'] else if c = '#' then ['%', '2', '3']
+    else [c]
+
+/-- `EnvironBuilder.from_environ(environ)` (the Host header is present): the decoded PATH_INFO and
+SCRIPT_NAME are quoted by `_quote_url_syntax` before they are handed to the URL-syntax parameters -/
 def fromEnviron (o : UrlOpaque) (e : Environ) : Except String Builder :=
   match decodingDance e.pathInfo, decodingDance e.scriptName, decodingDance e.queryString with
-  | some p, some s, some q => builderInit o p (some (makeBaseUrl e.urlScheme e.httpHost s)) (.text q)
+  | some p, some s, some q =>
+    builderInit o (quoteUrlSyntax p) (some (makeBaseUrl e.urlScheme e.httpHost (quoteUrlSyntax s))) (.text q)
   | _, _, _ => .error "UnicodeEncodeError"
 
 /-! ### the remaining URL attributes of `Request` -/
